@@ -162,6 +162,14 @@ def fixed_specs(rng):
     return {'lib6': lib6, 'lib5a': lib5a, 'lib5b': lib5b, 'chain': chain, 'fan': fan, 'cyc': cyc, 'sc4': sc4, 'two': two}
 
 
+def copy_swap_node_libs(spec):
+    import copy
+    s = copy.deepcopy(spec)
+    ks = [i for i, t in enumerate(s['top']) if t['kind'] == 'nodes']
+    s['top'][ks[0]], s['top'][ks[1]] = s['top'][ks[1]], s['top'][ks[0]]
+    return s
+
+
 def expected_counts(spec, uids):
     """number of bindings every node must have when everything resolves"""
     out = {}
@@ -210,6 +218,11 @@ def build_cases(ctx):
     for perm in itertools.permutations(range(4)):
         cases.append(make_case(R.with_scene_node_order(fx['sc4'], perm), [None], True, family='scenenodeperm:sc4'))
     stats['scenenodeperm:sc4'] = 24
+    # the two elements in the other document order (the first one instantiates nodes of the later one)
+    swapped = copy_swap_node_libs(fx['two'])
+    for p2 in itertools.permutations(range(4)):
+        cases.append(make_case(R.with_node_order(swapped, p2, 0), [None], True, family='nodeperm:two-library_nodes-swapped'))
+    stats['nodeperm:two-library_nodes-swapped'] = 24
     # two <library_nodes> elements: all 24 orders of the second element's nodes x both orders of the first
     for p1 in itertools.permutations(range(2)):
         for p2 in itertools.permutations(range(4)):
